@@ -876,7 +876,8 @@ func classify(s Script, r Result) *vcore.Violation {
 		case "loop->perio->loop":
 			over = r.TimerEvents > capEvents && r.Reported > capReports
 		case "loop->mux->loop":
-			over = r.InFlight > capReports
+			// the report queue takes the listener's notifications and the periodic server's reports of a tick alike
+			over = r.InFlight+r.Reported > capReports
 		case "perio->ticker->perio", "ticker->perio->ticker":
 			// the unchanged code can only get there with a ticker stuck on a full event queue
 			over = r.TimerEvents > capEvents
